@@ -41,7 +41,63 @@ def run(ctx):
     ctx.evaluate(A.eval_state, cases, label="forest-state", chunk=8,
                  key=lambda c: core._digest([c["kids"], c["par"], c["rot"]]))
     ctx.traces += ctx.notes["transitions_checked"]
+    validate_traces(ctx)
+
+
+def _prep(data):
+    trs = []
+    for t in data.get("forest", []):
+        evs = []
+        for e in t["events"]:
+            if e["op"] != "add" or e["par"] == "<unnamed>":
+                break                  # an object was mutated after filing: the rest of this trace is not judged
+            evs.append(e)
+        if evs:
+            trs.append({"tid": t["tid"], "events": evs})
+    used = set(x for t in trs for e in t["events"] for x in (e["c"], e["o"], e["par"])) - set(["ROOT", "None"])
+    objs = {n: a for n, a in data.get("forest_objs", {}).items() if n in used}
+    missing = used - set(objs)
+    if missing:
+        trs = [t for t in trs if not any(x in missing for e in t["events"] for x in (e["c"], e["o"], e["par"]))]
+    return trs, objs
+
+
+def validate_traces(ctx):
+    """code -> spec: recorded adds of the repository's tests and of a seeded random driver against Trace_Forest.tla."""
+    from . import traces as T
+    n_driver = 120 if ctx.quick else 1200
+    for source, data, meta in (("testsuite", T.record_testsuite(), {}),
+                               ("driver", T.run_driver("forest", ctx.seed, n_driver), {"seed": ctx.seed, "n": n_driver})):
+        trs, objs = _prep(data)
+        if not trs:
+            raise core.MachineryError("no recorded forest traces from %s" % source)
+        verdicts = T.validate_batch(ctx, "Trace_Forest", "Trace_Forest.cfg", trs, extra={"objs": objs})
+        inv = verdicts.pop("__invariant__", None)
+        if inv:
+            t = trs[inv[2] - 1] if inv[2] else None
+            ctx.fail({"source": source, "meta": meta, "trace": t, "objs": {k: objs[k] for e in (t or {"events": []})["events"] for k in (e["c"], e["o"]) if k in objs},
+                      "tlc": inv[3]}, "recorded execution reaches a forest violating %s" % inv[1], "trace")
+            continue
+        by = {t["tid"]: t for t in trs}
+        for tid, (v, at) in verdicts.items():
+            if v == "REJECT":
+                t = by[tid]
+                ev = t["events"][at - 1] if 0 < at <= len(t["events"]) else None
+                ctx.fail({"source": source, "meta": meta, "trace": t, "rejected_at": at, "event": ev,
+                          "objs": {k: objs[k] for e in t["events"] for k in (e["c"], e["o"]) if k in objs}},
+                         "recorded execution is not a behaviour of Forest: event %d %s (container %s, variant %s)"
+                         % (at, ev, objs.get(ev["c"]) if ev else None, objs.get(ev["o"]) if ev else None), "trace")
+        ctx.notes["forest_traces_%s" % source] = len(trs)
+        ctx.notes["forest_trace_events_%s" % source] = sum(len(t["events"]) for t in trs)
+        ctx.traces += len(trs)
+        ctx.evaluations += len(trs)
+        ctx.distinct_count += len(trs)
+        ctx.sample({"kind": "trace", "source": source, "events": trs[0]["events"][:3]}, limit=8)
 
 
 def replay(info):
+    if info["kind"] == "trace":
+        ctx = core.Ctx("C11", "quick", info["case"].get("meta", {}).get("seed", 0))
+        validate_traces(ctx)
+        return [v[0]["why"] for v in ctx.violations]
     return A.eval_state(info["case"])
